@@ -107,4 +107,12 @@ theorem api_sequence_no_panic : type_of% @Otr.api_sequence_no_panic := @Otr.api_
 
 theorem api_sequence_no_panic_fresh : type_of% @Otr.api_sequence_no_panic_fresh := @Otr.api_sequence_no_panic_fresh
 
+/-- repaired code: arguments that do not fit the 16-bit length field of a TLV are refused up front
+    (no wrap-around of the length, no state change) -/
+theorem startAuthenticate_question_too_long : type_of% @Otr.startAuthenticate_question_too_long :=
+  @Otr.startAuthenticate_question_too_long
+
+theorem useExtraSymmetricKey_too_long : type_of% @Otr.useExtraSymmetricKey_too_long :=
+  @Otr.useExtraSymmetricKey_too_long
+
 end Otr.C13
